@@ -111,6 +111,11 @@ class _FuncInline(SiteRewriter):
     ):
         self.func = func
         self.def_use = def_use
+        # names the function binds itself (arguments, assignments, targets)
+        self.bound = {
+            d.name for d in def_use.defs
+            if isinstance(d, AssignDef) and not d.is_free
+        }
         self.funcs = funcs
         self.where = where
         # Cache of fully-inlined callee bodies, keyed by callee
@@ -186,6 +191,9 @@ class _FuncInline(SiteRewriter):
 
         # merge free variables
         for name in ast.free_vars:
+            if name in self.bound or name in self.gensym.generated:
+                # spliced into the caller, the read would see that variable
+                raise RuntimeError(f'cannot inline function `{e.fn.name}`: its free variable `{name}` is a local variable of the caller')
             if str(name) in self.env:
                 # already in the environment, check that it is the same
                 val = self.env.get(str(name))
